@@ -387,7 +387,7 @@ def obligations(tier):
     if tier == "quick":
         ml, T = 3, 400
         combos = []
-        ks = (2,)
+        ks = (0, 2)
     else:
         ml, T = 4, 3000
         combos = [("short_textgrid", w, ti, b) for w in ("interval", "point", "name") for ti in (0, 1) for b in (True, False)]
@@ -412,6 +412,9 @@ def obligations(tier):
         for o in (C04.ob_override(k, "sym", T), C04.ob_fill(k, "sym", T)):
             o.name = "partition-" + o.name
             obs.append(o)
+    # every tier's own span reaches the file unchanged (all text formats take it from here)
+    obs.append(C04.ob_spans(2, 200))
+    obs.append(C04.ob_spans(1, 300, blanks=True))
     obs.append(ob_formats_agree(300))
     from harness import numtok
 
